@@ -2,6 +2,7 @@ From Coq Require Import Extraction ExtrOcamlBasic.
 From Shisui Require Import Base.Bytes Base.Ssz Model.Wire Model.WireState.
 Extraction Language OCaml.
 Extraction "c14_model.ml" enc_any dec_any dec_code dec_spec limits_any wf_any schema
+  dec_Forked_oracle code_strict_forked_scope enc_Forked fork_select D_Bellatrix D_Capella D_Deneb D_Electra
   enc_any2 dec_any2 limits_any2 wf_any2 schema2 code_strict_state_fixed_keys
   code_strict_zero_offset code_strict_fixed_scope code_rejects_empty_list
   L_PingPayload L_Distances L_ContentKey L_OfferKeys L_Enr L_Enrs L_Content L_AcceptBits L_AcceptV1Keys
